@@ -10,6 +10,8 @@ import TddaVerif.Model.RexpyRender
 import TddaVerif.Props.C03Spec
 import TddaVerif.Lemmas.RexpySound
 import TddaVerif.Lemmas.RexpyInvariance
+import TddaVerif.Model.RexpySampled
+import TddaVerif.Lemmas.RexpySampled
 
 namespace TddaVerif.Props.C13
 open TddaVerif.Py TddaVerif.Rexpy TddaVerif.Props.C03
@@ -37,6 +39,15 @@ theorem pruning_subset (T : CharTable) (o : Opts) (items : List (Option Line × 
     (hne : (clean o.stripOpt o.removeEmpties items).strings ≠ []) :
     ∃ qs, batchExtract T o (clean o.stripOpt o.removeEmpties items) = some (qs, E) ∧ ∀ p ∈ ps, p ∈ qs :=
   C03.Lemmas.extract_subset_batch T o items ps E w h hne
+
+/-- under sampling too, every returned pattern matches one of the examples (it was extracted from working examples,
+    which are examples) -/
+theorem sampled_pattern_has_witness (T : CharTable) (hT : Consistent T) (o : Opts)
+    (hsz : 1 ≤ o.sizes.maxStringsInGroup) (cfg : SampleCfg) (pick : Pick) (hp : C03.SampledLemmas.PickOK pick)
+    (items : List (Option Line × Nat)) (ps : List Pattern) (E : List Char) (w : Bool)
+    (h : extractSampled T o cfg pick items = some (ps, E, w)) :
+    ∀ p ∈ ps, ∃ s ∈ (clean o.stripOpt o.removeEmpties items).strings, Matches T E (wrapWs w p) s :=
+  C03.SampledLemmas.extractSampled_witness T hT o hsz cfg pick hp items ps E w h
 
 /-- every rendered expression starts with `^` and ends with `$` -/
 theorem anchored (E : List Char) (dialect : Nat) (tagged wsWrap : Bool) (p : Pattern) :
